@@ -29,7 +29,12 @@ def run(ctx):
         for p in periods:
             regimes = list(range(8))
             r.shuffle(regimes)
-            for g in regimes[: (2 if not ctx.thorough else 4)]:
+            chosen = regimes[: (2 if not ctx.thorough else 4)]
+            if ind in ("SD", "BB", "CCI"):
+                # the clamp / guard paths of the running variance and deviation are reached on plateaus and on almost-flat
+                # levels after spikes: always include those regimes (seed-independent coverage)
+                chosen = [7, 4] + [g_ for g_ in chosen if g_ not in (7, 4)][:1 if not ctx.thorough else 3]
+            for g in chosen:
                 m = r.choice(bands)
                 length = n
                 if ind in ("MAD", "CCI") and p >= 100:
@@ -41,6 +46,16 @@ def run(ctx):
                                      r.getrandbits(62), length, m, 1000.0 * m, every, (r.choice([1, 1, 2]) if ind in BARS else 0), p + 1,
                                      meta={"ind": ind, "p": p, "regime": g, "band": m, "n": length}))
                 k += 1
+    # short streams checked at EVERY step (tau(t) is tightest early: a mistake of relative size 1e-8 is a violation only while
+    # t^1.5 < 1e4), on the regimes where clamps and guards fire
+    for ind in ("SD", "BB", "MAD", "CCI", "MFI"):
+        for p in (2, 3, 10):
+            for g in (7, 4, 6, 2):
+                for rep in range(1 if not ctx.thorough else 4):
+                    cases.append(GenCase("d%d_%s_p%d_r%d" % (k, ind, p, g), ind, (p, 0, 0, 2.0 if ind == "BB" else 0.0), g,
+                                         r.getrandbits(62), 600, 1.0, 1000.0, 1, (r.choice([1, 1, 2]) if ind in BARS else 0), p + 1,
+                                         meta={"ind": ind, "p": p, "regime": g, "band": 1.0, "n": 600, "dense": True}))
+                    k += 1
     run_gen_harness(ctx.binary_release or ctx.binary, cases, "C13")
     res = coq_check_gen(cases, "C13")
     viol = []
